@@ -1549,6 +1549,40 @@ func prnSortStrings(x []string) {
 	}
 }
 
+// prnSpacedExtName: some `( name )` that is followed by `=` or `.` (an extension name in an option
+// path) has a space or comment directly inside the parentheses. ast.Path.Canonicalized() is ""
+// for such a path, which gives the option the sort key "1".
+func prnSpacedExtName(file *ast.File) bool {
+	found := false
+	var walk func(c *token.Cursor)
+	walk = func(c *token.Cursor) {
+		for t := c.NextSkippable(); !t.IsZero(); t = c.NextSkippable() {
+			if t.Kind().IsSkippable() || t.IsLeaf() {
+				continue
+			}
+			if t.Keyword() == keyword.Parens {
+				inner := false
+				k := t.Children()
+				for ch := k.NextSkippable(); !ch.IsZero(); ch = k.NextSkippable() {
+					if ch.Kind().IsSkippable() {
+						inner = true
+					}
+				}
+				if inner {
+					after := c.Clone()
+					nx := after.Next()
+					if nx.Keyword() == keyword.Assign || nx.Text() == "." {
+						found = true
+					}
+				}
+			}
+			walk(t.Children())
+		}
+	}
+	walk(file.Stream().Cursor())
+	return found
+}
+
 // prnFormatObserve: what Gen puts into the op and Exec re-observes.
 func prnFormatObserve(preset, src string) (op string, file *ast.File, opts printer.Options, ok bool) {
 	opts, okp := prnPreset(preset)
@@ -1621,6 +1655,11 @@ func (prnFormatEngine) Exec(op string) string {
 	default:
 		flags = append(flags, "cm=none")
 	}
+	if prnSpacedExtName(file) {
+		flags = append(flags, "xp=1")
+	} else {
+		flags = append(flags, "xp=0")
+	}
 	ans := Hex([]byte(out)) + " ~ " + strings.Join(flags, " ")
 	for _, f := range flags {
 		if f == "out=err" {
@@ -1681,6 +1720,19 @@ func (prnFormatEngine) Gen(r *Rand, tier string) [][]string {
 	for i := 0; i < n; i++ {
 		toks := prnGenFile(r)
 		add(prnPerturb(r, toks, Pick(r, []int{0, 1, 2, 4, -1})))
+	}
+	// large headers and bodies with repeated custom options set several times (stability of
+	// every sort the formatter performs); extension names spelled canonically / with trivia
+	// inside the parentheses are separate sub-families
+	nh, nx := 160, 50
+	if tier == "thorough" {
+		nh, nx = 3000, 800
+	}
+	for i := 0; i < nh; i++ {
+		add(prnPerturb(r, prnGenHeaderFile(r, false), Pick(r, []int{0, 0, 0, 1, 2})))
+	}
+	for i := 0; i < nx; i++ {
+		add(prnPerturb(r, prnGenHeaderFile(r, true), Pick(r, []int{0, 0, 1})))
 	}
 	return cases
 }
